@@ -94,7 +94,7 @@ def build(repo):
     # ---- list forms
     u.replace_in((P, 'set_options_as'), 'R33:into_iter-map-collect', r'value\.into_iter\(\)\.map\(\|x\| x\.into\(\)\)\.collect\(\)',
                  'deque_map_collect(value, |x: T| -> (o: Vec<u8>) ensures call_ensures(<T as Into<Vec<u8>>>::into, (x,), o) { x.into() })')
-    u.replace_in((P, 'set_options_as'), 'R33:type-of-collected', r'let raw_value =', 'let raw_value: VecDeque<Vec<u8>> =')
+    u.replace_in((P, 'set_options_as'), 'R33:type-of-collected', r'let (\w+) = deque_map_collect', r'let \1: VecDeque<Vec<u8>> = deque_map_collect', (0, 1))
     u.contract((P, 'set_options_as'), '''        ensures
             // the option now holds one encoding per element, in order; nothing else changed
             exists|raw: VecDeque<Vec<u8>>| raw@.len() == value@.len()
